@@ -223,18 +223,24 @@ func init() {
 			return k
 		},
 		"Fault": func(fr *frame, args []value) value {
+			// "this API call fails": a symbolic boolean; at most maxFaults of them are true on a path
+			// (cardinality constraint in the path condition), so the solver picks the fault schedule.
 			px := fr.i.px
-			un := px.uniqueName("fault:" + str(args[0]))
-			k := 0
-			if px.faults < px.h.maxFaults() {
-				k = fr.choose(2, un)
+			c := px.ctx
+			t, _ := fr.newInput("fault:"+str(args[0]), "bool", 1, smt.Bool)
+			one, zero := c.BVConst(1, 8), c.BVConst(0, 8)
+			if px.faultCount == nil {
+				px.faultCount = zero
 			}
-			if k == 1 {
-				px.faults++
+			px.faultCount = c.Add(px.faultCount, c.Ite(t, one, zero))
+			px.nFaultVars++
+			if px.nFaultVars > 200 {
+				panic(engineError{"more than 200 fault sites on one path"})
 			}
-			px.inputs = append(px.inputs, InputRec{Name: un, Kind: "choose", Bits: 64, term: px.ctx.BVConst(uint64(k), 64)})
-			return k == 1
+			px.assertPC(c.ULe(px.faultCount, c.BVConst(uint64(px.maxFaults), 8)))
+			return SymBool{t}
 		},
+		"SetMaxFaults": func(fr *frame, args []value) value { fr.i.px.maxFaults = cint(fr, args[0], "maxfaults"); return nil },
 		"Assume": func(fr *frame, args []value) value { fr.assume(args[0]); return nil },
 		"Assert": func(fr *frame, args []value) value { fr.assertProp(args[0], str(args[1])); return nil },
 		"Observe": func(fr *frame, args []value) value {
@@ -291,7 +297,6 @@ func init() {
 	}
 }
 
-func (h *HarnessRun) maxFaults() int { return 1 }
 
 // ---- standard library and environment
 
@@ -365,10 +370,12 @@ func findMethod(prog *ssa.Program, t types.Type, name string) *ssa.Function {
 func safeCallString(fr *frame, m *ssa.Function, recv value) (out any) {
 	defer func() {
 		if r := recover(); r != nil {
-			if isEngineAbort(r) {
+			if _, isEngineErr := r.(engineError); isEngineAbort(r) && !isEngineErr {
 				panic(r)
 			}
-			out = "<panic in String/Error>"
+			// formatting only: a String/Error method that panics or needs reflection yields a placeholder
+			fr.i.px.panicTrace = ""
+			out = "<unformattable>"
 		}
 	}()
 	r := call(fr.i, fr, token.NoPos, m, []value{copyVal(recv)})
@@ -768,6 +775,12 @@ func DefaultIntrinsics() map[string]externalFn {
 	}
 	m["time.runtimeNano"] = func(fr *frame, a []value) value { return int64(1) }
 	m["time.runtimeNow"] = func(fr *frame, a []value) value { return tuple{int64(1767225600), int32(0), int64(1)} }
+	m["time.After"] = func(fr *frame, a []value) value { return &chanV{cap: 1, timer: true} }
+	m["k8s.io/apimachinery/pkg/util/rand.String"] = func(fr *frame, a []value) value {
+		px := fr.i.px
+		px.uuidN++
+		return fmt.Sprintf("r%04d", px.uuidN)
+	}
 	m["runtime.NumCPU"] = func(fr *frame, a []value) value { return 16 }
 	m["runtime.GOMAXPROCS"] = func(fr *frame, a []value) value { return 16 }
 	m["os.Getenv"] = func(fr *frame, a []value) value { return "" }
